@@ -356,7 +356,7 @@ BundleZeroItems(ev) ==
 \* ---- aliases (C04): each documented alias returns exactly what the canonical member returns
 AliasItems(ev) ==
   [i \in 1..Len(ev.names) |->
-     Item(ev.names[i], IF ev.vals[i] = ev.canon[i] /\ (("own" \in DOMAIN ev) => ev.vals[i] = ev.own[i]) THEN 0 ELSE 2000000000)]
+     Item(ev.names[i], IF ev.vals[i] = ev.canon[i] /\ (("own" \in DOMAIN ev /\ i <= Len(ev.own)) => ev.vals[i] = ev.own[i]) THEN 0 ELSE 2000000000)]
 
 Items(ev) ==
   CASE ev.e = "layout"    -> LayoutItems(ev)
